@@ -29,6 +29,8 @@ type Spaces struct {
 	Neigh    *corpus.Neighbourhood
 	cum      []int64
 	Natural  []corpus.Seed
+	Deep     corpus.Deep
+	dcum     []int64
 }
 
 func Build(thorough bool) *Spaces {
@@ -49,7 +51,40 @@ func Build(thorough bool) *Spaces {
 	for i, t := range s.TSeeds {
 		s.cum[i+1] = s.cum[i] + s.Neigh.Count(len(t.Data))
 	}
+	s.Deep = corpus.Deep{H: s.Neigh.H, Cap: 1600}
+	if thorough {
+		s.Deep.Cap = 1 << 16
+	}
+	s.dcum = make([]int64, len(s.TSeeds)+1)
+	for i, t := range s.TSeeds {
+		s.dcum[i+1] = s.dcum[i] + s.Deep.Count(len(t.Data))
+	}
 	return s
+}
+
+// DeepLen: per-type seeds x the length-field deviations beyond the header region (corpus.Deep).
+func (s *Spaces) DeepLen() int64 { return s.dcum[len(s.TSeeds)] }
+func (s *Spaces) DeepCase(i int64) Case {
+	lo, hi := 0, len(s.TSeeds)
+	for lo < hi {
+		m := (lo + hi) / 2
+		if s.dcum[m+1] > i {
+			hi = m
+		} else {
+			lo = m + 1
+		}
+	}
+	t := s.TSeeds[lo]
+	return Case{First: t.First, Data: s.Deep.Variant(t.Data, i-s.dcum[lo]), Dev: 1, Seed: t.Name + " (beyond the header region)", SeedIdx: lo}
+}
+
+// NeighDeepLen/NeighDeepCase: the neighbourhoods followed by the deviations beyond the header region.
+func (s *Spaces) NeighDeepLen() int64 { return s.NeighLen() + s.DeepLen() }
+func (s *Spaces) NeighDeepCase(i int64) Case {
+	if i < s.NeighLen() {
+		return s.NeighCase(i)
+	}
+	return s.DeepCase(i - s.NeighLen())
 }
 
 // SeedlessLen: every first layer x every seedless string.
